@@ -61,6 +61,14 @@ struct Tn  // like Tm, but its converting move constructor is not noexcept (a co
     ~Tn() {}
 };
 
+struct Tt  // like Tm, but trivially copyable and trivially destructible (fast paths keyed on the stored type alone must still convert)
+{
+    u32 v;
+    u32 how;
+    Tt(const Ms& s) noexcept : v(s.v), how(1) {}
+    Tt(Ms&& s) noexcept : v(s.v), how(2) { s.moved = s.moved + 1; }
+};
+
 #if PAIR == 1
 using SRC = u32;
 using DST = u32;
@@ -97,6 +105,9 @@ using DST = u8;  // narrowing
 #elif PAIR == 13
 using SRC = Ms;
 using DST = Tn;
+#elif PAIR == 14
+using SRC = Ms;
+using DST = Tt;
 #else
 using SRC = float;
 using DST = float;
@@ -140,7 +151,7 @@ u64 bits_of(const T& x)
         __builtin_memcpy(&b, &x, 1);
         r = b;
     }
-    else if constexpr (std::is_same_v<T, Tm> || std::is_same_v<T, Tn> || std::is_same_v<T, Ms>)
+    else if constexpr (std::is_same_v<T, Tm> || std::is_same_v<T, Tn> || std::is_same_v<T, Tt> || std::is_same_v<T, Ms>)
     {
         r = x.v;
     }
@@ -154,7 +165,7 @@ template <class DST_ = DST, class SRC_ = SRC>
 static DST_ convert(const SRC_& s)
 {
     using DST = DST_;
-    if constexpr (std::is_same_v<DST, Tm> || std::is_same_v<DST, Tn>)
+    if constexpr (std::is_same_v<DST, Tm> || std::is_same_v<DST, Tn> || std::is_same_v<DST, Tt>)
     {
         return DST(s);
     }
@@ -174,6 +185,7 @@ template <class X>
 u32 field_how(const X&) { return 0; }
 inline u32 field_how(const Tm& x) { return x.how; }
 inline u32 field_how(const Tn& x) { return x.how; }
+inline u32 field_how(const Tt& x) { return x.how; }
 template <class X>
 void reset_moved(X&) {}
 inline void reset_moved(Ms& x) { x.moved = 0; }
@@ -270,7 +282,49 @@ struct GenRange
     GenIt end() const { return GenIt{base, n}; }
 };
 
-#if VARYING
+struct Seg  // three items that are not adjacent in memory
+{
+    SRC a;
+    unsigned char gap0[24];
+    SRC b;
+    unsigned char gap1[40];
+    SRC c;
+    const SRC& at(std::ptrdiff_t k) const { return k == 0 ? a : (k == 1 ? b : c); }
+};
+struct SegIt  // random access, lvalue references, operator-> yields a pointer - and still not contiguous (like std::deque's iterator)
+{
+    using iterator_category = std::random_access_iterator_tag;
+    using value_type = SRC;
+    using difference_type = std::ptrdiff_t;
+    using pointer = const SRC*;
+    using reference = const SRC&;
+    const Seg* s;
+    difference_type k;
+    reference operator*() const { return s->at(k); }
+    pointer operator->() const { return &s->at(k); }
+    reference operator[](difference_type d) const { return s->at(k + d); }
+    SegIt& operator++() { ++k; return *this; }
+    SegIt operator++(int) { SegIt c = *this; ++k; return c; }
+    SegIt& operator--() { --k; return *this; }
+    SegIt operator--(int) { SegIt c = *this; --k; return c; }
+    SegIt& operator+=(difference_type d) { k += d; return *this; }
+    SegIt& operator-=(difference_type d) { k -= d; return *this; }
+    friend SegIt operator+(SegIt i, difference_type d) { i.k += d; return i; }
+    friend SegIt operator+(difference_type d, SegIt i) { i.k += d; return i; }
+    friend SegIt operator-(SegIt i, difference_type d) { i.k -= d; return i; }
+    friend difference_type operator-(const SegIt& x, const SegIt& y) { return x.k - y.k; }
+    bool operator==(const SegIt& o) const { return k == o.k; }
+    bool operator!=(const SegIt& o) const { return k != o.k; }
+    bool operator<(const SegIt& o) const { return k < o.k; }
+    bool operator>(const SegIt& o) const { return k > o.k; }
+    bool operator<=(const SegIt& o) const { return k <= o.k; }
+    bool operator>=(const SegIt& o) const { return k >= o.k; }
+};
+
+#if VARYING == 2  // over-aligned span behind an 8-byte count (run-time padding in front of the span, also for length 0) + a trailing field
+using LT = L<usize, cntgs::VaryingSize<cntgs::AlignAs<DST, 16>>, u16>;
+constexpr usize FIELD = 1;
+#elif VARYING
 using LT = L<usize, cntgs::VaryingSize<DST>>;
 constexpr usize FIELD = 1;
 #else
@@ -283,7 +337,9 @@ using Vec = LT::Vec<Alloc>;
 template <class Arg>
 static void emplace(Vec& v, usize n, Arg&& arg)
 {
-#if VARYING
+#if VARYING == 2
+    v.emplace_back(n, std::forward<Arg>(arg), u16{7});
+#elif VARYING
     v.emplace_back(n, std::forward<Arg>(arg));
 #else
     (void)n;
@@ -371,10 +427,25 @@ static void body()
         emplace(v, n, c.begin());
         counted = true;
 #define SOURCE_AFTER(i) c.nodes[i].v
-#else  // generated iterator (FixedSize only)
+#elif FORM == 12  // generated iterator (FixedSize only)
         emplace(v, n, GenIt{src, 0});
         counted = true;
 #define SOURCE_AFTER(i) src[i]
+#elif FORM == 13  // reverse_iterator over an array (FixedSize only): random access, lvalue references, operator-> - but it walks backwards
+        SRC c[LMAX + 1] = {src[0], src[1], make_src()};
+        emplace(v, n, std::make_reverse_iterator(static_cast<const SRC*>(c) + n));
+#define SOURCE_AFTER(i) c[(i) < n ? n - 1 - (i) : (i)]
+#define SRC_AT(i) src[(i) < n ? n - 1 - (i) : (i)]
+#else  // segmented random-access iterator (FixedSize only)
+#ifdef KF_CONTIG_HEURISTIC
+        verif_assume(n <= 1);  // discriminator of KF-contig-heuristic: with at most one item contiguity is vacuous
+#endif
+        const Seg c{src[0], {}, src[1], {}, make_src()};
+        emplace(v, n, SegIt{&c, 0});
+#define SOURCE_AFTER(i) c.at(i)
+#endif
+#ifndef SRC_AT
+#define SRC_AT(i) src[i]
 #endif
         const auto span = cntgs::get<FIELD>(v[0]);
         verif_assert(span.size() == n, 101);
@@ -382,13 +453,13 @@ static void body()
         {
             if (i < n)
             {
-                SRC s0 = src[i];
+                SRC s0 = SRC_AT(i);
                 reset_moved(s0);
                 const DST want = convert(s0);
                 verif_assert(bits_of(span[i]) == bits_of(want), 110);  // item by item T(source item)
                 if constexpr (std::is_same_v<SRC, Ms>)
                 {
-                    verif_assert(field_v(SOURCE_AFTER(i)) == before[i], 120);
+                    verif_assert(field_v(SOURCE_AFTER(i)) == field_v(SRC_AT(i)), 120);
                     verif_assert(field_moved(SOURCE_AFTER(i)) == (expect_moved ? 1u : 0u), 121);  // moved from exactly once / not at all
                     if (FORM != 8 && FORM != 12)  // a generated range hands out prvalues: constructing from them is a move of the temporary
                     {
@@ -397,7 +468,7 @@ static void body()
                 }
                 else
                 {
-                    verif_assert(bits_of(SOURCE_AFTER(i)) == before[i], 120);  // sources of trivially copyable types are unchanged
+                    verif_assert(bits_of(SOURCE_AFTER(i)) == bits_of(SRC_AT(i)), 120);  // sources of trivially copyable types are unchanged
                 }
             }
             else if constexpr (std::is_same_v<SRC, Ms>)
@@ -411,6 +482,9 @@ static void body()
             verif_assert(g_incr <= n, 131);
         }
         verif_assert(v.size() == 1, 102);
+#if VARYING != 1
+        verif_assert(cntgs::get<FIELD + 1>(v[0]) == 7, 103);  // the field behind the span is found where it was stored, whatever the span length
+#endif
         verif_reach(1);
     }
 }
